@@ -53,6 +53,11 @@ type c09Val struct {
 	F float64
 	S string
 	B bool
+	// Big != 0 (K == c09Float): an integer beyond ±2^53 that a JSON client writes as plain
+	// digits. JSON carries no integers, so the value every encoding carries is F, the float64
+	// nearest to it: the JSON paths get the digits, every other path the float64 F. (Integer
+	// encodings of such values are excluded, as the property states.)
+	Big int64
 }
 
 func (v c09Val) String() string {
@@ -60,6 +65,9 @@ func (v c09Val) String() string {
 	case c09Int:
 		return "int:" + strconv.FormatInt(v.I, 10)
 	case c09Float:
+		if v.Big != 0 {
+			return "float:" + strconv.FormatFloat(v.F, 'g', -1, 64) + "(json-text:" + strconv.FormatInt(v.Big, 10) + ")"
+		}
 		return "float:" + strconv.FormatFloat(v.F, 'g', -1, 64)
 	case c09Str:
 		return "str:" + strconv.Quote(v.S)
@@ -74,6 +82,9 @@ func (v c09Val) MarshalJSON() ([]byte, error) { return []byte(strconv.Quote(v.St
 func c09I(i int64) c09Val   { return c09Val{K: c09Int, I: i} }
 func c09F(f float64) c09Val { return c09Val{K: c09Float, F: f} }
 func c09S(s string) c09Val  { return c09Val{K: c09Str, S: s} }
+func c09Big(i int64) c09Val { return c09Val{K: c09Float, F: float64(i), Big: i} }
+
+var c09BigInts = []int64{1<<53 + 1, 1<<53 + 3, math.MaxInt64, -(1<<53 + 1), 1234567890123456789, 1<<60 + 1}
 func c09B(b bool) c09Val    { return c09Val{K: c09Bool, B: b} }
 
 func c09F32Exact(f float64) bool { return float64(float32(f)) == f && !math.IsInf(float64(float32(f)), 0) }
@@ -123,6 +134,9 @@ func c09PickVal(rng *verifkit.Rand, allowNil bool) c09Val {
 		}
 		return c09I(v)
 	case k < 70:
+		if rng.Chance(0.15) {
+			return c09Big(c09BigInts[rng.Intn(len(c09BigInts))])
+		}
 		return c09F(c09FloatAnchors[rng.Intn(len(c09FloatAnchors))])
 	case k < 88:
 		return c09S(c09Strings[rng.Intn(len(c09Strings))])
@@ -243,6 +257,13 @@ func c09Wire(v c09Val, e c09Enc, rng *verifkit.Rand) E3Val {
 		}
 		return VInt(v.I)
 	case c09Float:
+		if v.Big != 0 && (e.Path == c09BatchJSON || e.Path == c09EventJSON) {
+			// rendered as plain digits by the bench's JSON writer
+			if v.Big > 0 {
+				return E3Val{Kind: KUint, Uint: uint64(v.Big)}
+			}
+			return VInt(v.Big)
+		}
 		if e.F32 && c09F32Exact(v.F) {
 			return VF32(float32(v.F))
 		}
@@ -1039,6 +1060,17 @@ func c09Fidelity(tr *c09Trace, v c09Variant, spans []*types.Span) (string, strin
 				continue
 			}
 			var got float64
+			if f.Val.Big != 0 {
+				// every path carries the float64 F; an exact integer coming out of a JSON
+				// path means that path did not read the number like the other JSON path does
+				switch x := spans[i].Data.Get(f.Name).(type) {
+				case int64, uint64, int:
+					if fmt.Sprint(x) != strconv.FormatFloat(f.Val.F, 'f', -1, 64) {
+						return "C09/ingest/" + v.Enc[i].Path.String() + "/integer-beyond-2^53-kept-exact",
+							fmt.Sprintf("span %s field %s: client sent JSON number %d (float64 %s on every other path), the collector was handed %T %v", sp.ID, f.Name, f.Val.Big, strconv.FormatFloat(f.Val.F, 'f', -1, 64), x, x)
+					}
+				}
+			}
 			switch x := spans[i].Data.Get(f.Name).(type) {
 			case int64:
 				got = float64(x)
@@ -1484,8 +1516,9 @@ func c09Text(v c09Val) string {
 }
 
 func c09Grid() []c09GridCase {
-	vals := []c09Val{c09I(5), c09I(255), c09I(65536), c09I(1000000), c09I(1 << 31), c09I(1 << 53),
-		c09F(0.5), c09F(200), c09F(1e6), c09F(2500000.5), c09F(1.0 / (1 << 20)), c09F(16777216)}
+	vals := []c09Val{c09I(5), c09I(65536), c09I(1000000), c09I(1 << 31), c09I(1 << 53),
+		c09F(0.5), c09F(1e6), c09F(2500000.5), c09F(1.0 / (1 << 20)), c09F(16777216),
+		c09Big(1<<53 + 1), c09Big(1<<53 + 3), c09Big(math.MaxInt64)}
 	var out []c09GridCase
 	rule := func(c c09Cond) c09Sampler {
 		return c09Sampler{Rules: []c09Rule{{Name: "hit", Conds: []c09Cond{c}, SampleRate: 1}}}
@@ -1538,7 +1571,7 @@ func TestVerif_C09(t *testing.T) {
 		"floats incl. float32-exact / large / tiny ones, numeric-looking strings, bools, null) + one generated sampler configuration " +
 		"(rules with untyped / int / float / string / bool comparisons, string operators, in / not-in, presence, span and trace scope, " +
 		"downstream samplers; Dynamic, EMADynamic, TotalThroughput, EMAThroughput, WindowedThroughput with field lists incl. root. fields; " +
-		"deterministic). Grid cases = every comparison mechanism x 12 numeric values on a two-span trace. Variants: /1/batch msgpack (unsigned ints, " +
+		"deterministic). Grid cases = every comparison mechanism x 13 numeric values (3 of them integers beyond 2^53 written as JSON digits, carried as the nearest float64 elsewhere) on a two-span trace. Variants: /1/batch msgpack (unsigned ints, " +
 		"float32, wide ints), /1/batch JSON, /1/events JSON and msgpack, via a peer (real DirectTransmission body replayed into the peer listener), " +
 		"OTLP/HTTP proto+JSON and gRPC for OTLP-origin cases, and per-span mixtures; 3 span orders each. Non-trivial = the reference outcome " +
 		"depends on field values (a rule matched or a non-empty key); distinct = (sampler mechanism set, reference reason class).")
@@ -1566,7 +1599,7 @@ func TestVerif_C09(t *testing.T) {
 		g.runCase(tr, gc.Sampler, variants, [][]int{{0, 1}, {1, 0}}, ci == 0)
 	})
 
-	run.Cases("trace-x-sampler", run.N(160, 2600), func(ci int, rng *verifkit.Rand) {
+	run.Cases("trace-x-sampler", run.N(140, 2600), func(ci int, rng *verifkit.Rand) {
 		otlp := rng.Chance(0.25)
 		tr, pool := c09GenTrace(rng.Fork("trace"), run.Thorough(), otlp)
 		n := len(tr.Spans)
